@@ -22,12 +22,19 @@ TIME = {'quick': 110, 'thorough': 1500}
 def cases(draw, tier='quick'):
     dom = draw(gen.domains(2, 5 if tier == 'quick' else 6, 1, 3, cap=243 if tier == 'quick' else 729))
     attrs = dom['attrs']
-    shape_mode = draw(st.sampled_from(['free', 'free', 'triple_overlap', 'loop', 'chain']))
+    shape_mode = draw(st.sampled_from(['free', 'free', 'triple_overlap', 'loop', 'chain', 'two_families']))
+    if shape_mode == 'two_families':
+        # ABC, ABD, AEF, AEG: region A has the two non-maximal parents AB and AE, which have no common ancestor
+        dom = {'attrs': list(draw(st.permutations(gen.NAMES[:7]))), 'shape': [draw(st.sampled_from([1, 2, 2])) for _ in range(7)]}
+        attrs = dom['attrs']
     perm = list(draw(st.permutations(attrs)))
     n = len(attrs)
     if shape_mode == 'triple_overlap' and n >= 4:
         a, b, c, d = perm[:4]
         cl = [[a, b, c], [a, b, d], [a, c, d]] + ([[perm[4], a]] if n >= 5 and draw(st.booleans()) else [])
+    elif shape_mode == 'two_families':
+        a, b, c, d, e, f, g = perm
+        cl = [[a, b, c], [a, b, d], [a, e, f], [a, e, g]][:draw(st.integers(3, 4))] + ([[c, d]] if draw(st.booleans()) else [])
     elif shape_mode == 'loop' and n >= 3:
         cl = [[perm[i], perm[(i + 1) % n]] for i in range(n)]
     elif shape_mode == 'chain' and n >= 3:
@@ -120,6 +127,13 @@ def run_case(case):
         out.inconclusive = True
         out.classes.append('not_converged')
         return finish(out, rg, case)
+    # the answer handed back stays what it is when the oracle is asked again about other potentials
+    held = {k: np.array(mu[k].values, dtype=float) for k in mu}
+    rg.iters = 3
+    rg.belief_propagation(mbi.CliqueVector({r: pot[r] * 0.5 + 0.25 for r in pot}))
+    for k in held:
+        if not np.array_equal(np.asarray(mu[k].values, dtype=float), held[k], equal_nan=True):
+            return finish(out.fail('result_changed_by_later_call', 'the table of region %s returned earlier changed when the oracle was called again' % (k,)), rg, case)
     # (a) shared sub-regions agree
     keys = list(mu.keys())
     for x, y in itertools.combinations(keys, 2):
